@@ -226,7 +226,7 @@ Lemma run_scenario_spec cfg st id all_steps oe eff own st' res fld ev :
   aborted st' = aborted st || anyb abort_ev ev.
 Proof.
   unfold run_scenario.
-  set (hc := negb (c_dry cfg) && c_expr cfg eff).
+  set (hc := negb (c_dry cfg) && sel cfg eff).
   destruct hc eqn:Hhc.
   - destruct (run_tag_hooks cfg (push st) HBeforeTag own) as [[sa b1] e1] eqn:E1.
     apply run_tag_hooks_spec in E1 as (A1 & A2 & A3 & A4); [|reflexivity].
@@ -249,7 +249,7 @@ Proof.
       - inversion E3; subst. cbn. rewrite orb_false_r. repeat split; auto. discriminate.
       - apply steps_loop_spec in E3 as (S1 & S2 & S3 & S4). cbn [l_failed] in *. repeat split; auto. }
     destruct S3 as (S1 & S2 & S4).
-    destruct (fmt_no_bad _ (scen_ann_fmt (c_expr cfg eff || c_show_skipped cfg) id all_steps)) as (N1 & N2 & N3).
+    destruct (fmt_no_bad _ (scen_ann_fmt (sel cfg eff || c_show_skipped cfg) id all_steps)) as (N1 & N2 & N3).
     rewrite N1, N2, N3, A2, A3, B2, B3, C2, C3, D2, D3, P2, P3, P4, D4, C4, S4, B4, A4. bsimp.
     cbn [aborted push].
     repeat split.
@@ -276,7 +276,7 @@ Proof.
       - apply steps_loop_spec in E3 as (S1 & S2 & S3 & S4). cbn [l_failed aborted push] in *.
         repeat split; auto. intros H. destruct (S1 H); [discriminate|assumption]. now rewrite S4, Hsk. }
     destruct S3 as (S1 & S2 & S4).
-    destruct (fmt_no_bad _ (scen_ann_fmt (c_expr cfg eff || c_show_skipped cfg) id all_steps)) as (N1 & N2 & N3).
+    destruct (fmt_no_bad _ (scen_ann_fmt (sel cfg eff || c_show_skipped cfg) id all_steps)) as (N1 & N2 & N3).
     rewrite N1, N2, N3, P2, P3, P4, S4. bsimp.
     repeat split.
     + intros H. apply orb_true_iff in H as [H|H].
@@ -405,7 +405,7 @@ Lemma run_rule_ok cfg st r anc inh fhb st' res fld ev :
   run_rule cfg st r anc inh fhb = (st', res, fld, ev) -> seg_ok st st' fld ev.
 Proof.
   unfold run_rule.
-  set (hc := negb (c_dry cfg) && rule_should_run cfg anc r).
+  set (hc := negb (c_dry cfg) && rule_runs cfg anc r).
   destruct hc eqn:Hhc.
   - destruct (run_tag_hooks cfg (push st) HBeforeTag (r_tags r)) as [[sa b1] e1] eqn:E1.
     apply seg_ok_tag_hooks in E1; [|reflexivity].
